@@ -94,9 +94,11 @@ def aliases(fnode, final_attrs=None):
             v = w.targets[0].id
             if counts.get(v) != 1 or v in loop_targets:
                 continue
-            if final_attrs is not None and not (isinstance(w.value, ast.Attribute) and isinstance(w.value.value, ast.Name) and w.value.value.id == 'self'
-                                                and w.value.attr in final_attrs):
-                continue
+            if final_attrs is not None:
+                params_ = {x.arg for x in fnode.args.posonlyargs + fnode.args.args + fnode.args.kwonlyargs}
+                if not (isinstance(w.value, ast.Attribute) and isinstance(w.value.value, ast.Name) and w.value.attr in final_attrs
+                        and (w.value.value.id == 'self' or (w.value.value.id in params_ and counts.get(w.value.value.id, 0) <= 2))):
+                    continue        # `x = self.<final attribute>` or `x = <parameter>.<final attribute>` only
             inner = {x.id for x in ast.walk(w.value) if isinstance(x, ast.Name)}
             # every name in the path must itself be stable: `self`, or bound at most once (parameters count twice above: allow them explicitly)
             params = {x.arg for x in fnode.args.posonlyargs + fnode.args.args + fnode.args.kwonlyargs}
